@@ -26,6 +26,17 @@ def programs(tier, rnd: random.Random):
               "{ RdV = (0 ? mem_load_u16(RsV) + 1 : RtV); }", "{ RdV = (1 ? RsV : PtN + 1); }", "{ RdV = (1 ? RsV : ({ P0 = 1; RtV; })); }", "{ RdV = (0 ? ({ P1 = RsV; 2; }) + 1 : RtV); }",
               "{ RsV + mem_load_u8(RtV); RdV = 1; }", "{ RdV = RsV; (int32_t) mem_load_s16(RtV); }",
               "{ for (i = 0; i < 2; i++) { RxV += RsV; } RdV = RsV; }", "{ RdV = RsV; RdV = RsV; RdV = RsV; }", "{ ; ; {} }", "{ RdV = 4 / 2; }", "{ RdV = (4 / 2) ? RsV : RtV; }"]
+    # every register alias in every access form: read, .new read, both in one statement, written, written and read back (each form has its own
+    # declaration / operand-handle text in the emitted body)
+    aliases = ["USR", "PC", "SP", "LR", "GP", "FP", "LC0", "LC1", "SA0", "SA1", "P3_0", "M0", "M1", "CS0", "CS1", "UPCYCLE", "PKTCOUNT", "UTIMER", "UGP",
+               "FRAMELIMIT", "FRAMEKEY"]
+    fam = []
+    for a in aliases:
+        fam += ["{ RdV = HEX_REG_ALIAS_%s; }" % a, "{ RdV = HEX_REG_ALIAS_%s_NEW; }" % a, "{ RddV = HEX_REG_ALIAS_%s_NEW + HEX_REG_ALIAS_%s; }" % (a, a),
+                "{ RdV = HEX_REG_ALIAS_%s_NEW + HEX_REG_ALIAS_%s_NEW; }" % (a, a)]
+        if a != "PC":
+            fam += ["{ HEX_REG_ALIAS_%s = RsV; }" % a, "{ HEX_REG_ALIAS_%s = RsV; RdV = HEX_REG_ALIAS_%s; }" % (a, a)]
+    progs += fam if tier != "quick" else rnd.sample(fam, 24) + ["{ RdV = HEX_REG_ALIAS_PC_NEW; }", "{ RdV = HEX_REG_ALIAS_PC_NEW + HEX_REG_ALIAS_PC; }"]
     return progs
 
 
